@@ -34,6 +34,7 @@ SUBJECTS = {
     "F41": "a lifespan failure followed by another application error",
     "F42": "WSGI applications may call start_response lazily",
     "F43": "do not call the WSGI application for a request the client abandoned",
+    "F12": "do not re-arm the keep-alive timer once the peer has stopped sending",
     "F34": "a failed lifespan startup is only reported once",
     "F35": "a lifespan failure the application swallowed",
     "F36": "worker_serve returns when the lifespan app is still waiting",
